@@ -171,10 +171,10 @@ pub fn build(rng: &mut Rng, i: usize) -> PDB {
             value(rng, 100, 17_999, 100.0),
         ));
         if rng.chance(3, 4) {
-            // the Hermann-Mauguin symbols that fit the ten columns of CRYST1 (the longer ones are the C17 finding)
+            // the Hermann-Mauguin symbols that fit the eleven columns of CRYST1 (the longer ones are the C17 finding)
             loop {
                 let s = Symmetry::from_index(1 + rng.below(230));
-                if s.as_ref().map_or(false, |s| s.herman_mauguin_symbol().len() <= 10) {
+                if s.as_ref().map_or(false, |s| s.herman_mauguin_symbol().len() <= 11) {
                     pdb.symmetry = s;
                     break;
                 }
